@@ -103,6 +103,8 @@ def cy_error_class(msg):
         return "index-out-of-bounds"
     if "no starred arg found when splitting starred assignment" in msg or "Compiler crash in PostParse" in msg:
         return "crash-starred-assignment"
+    if "'ReturnStatNode' object has no attribute 'return_type'" in msg:
+        return "crash-return-type"
     if "is_pylist_type" in msg or "Compiler crash in EarlyReplaceBuiltinCalls" in msg:
         return "crash-early-replace-builtin-calls"
     if "Incompatible types in conditional expression" in msg:
@@ -165,6 +167,38 @@ def blame(m, b):
     return out
 
 
+def isolate(m, b, jobs, tag):
+    """a module fails to build and the messages blame no program (compiler crash without position): find the
+    programs that fail on their own by bisection (Cython only) -> {pid: (stage, message)}"""
+    out = {}
+    groups = [[r for r in m["recs"] if r["pid"] not in m["dropped"]]]
+    rnd = 0
+    while groups and rnd < 8:
+        rnd += 1
+        halves = []
+        for g in groups:
+            if len(g) == 1:
+                halves.append(g)
+            else:
+                halves.extend([g[:len(g) // 2], g[len(g) // 2:]])
+        specs = []
+        for i, g in enumerate(halves):
+            mm = {"recs": g, "dropped": {}}
+            specs.append(core.BuildSpec("%s_i%d_%d" % (m["name"], rnd, i), module_source(mm)[0], kind="py", cython_only=True,
+                                        options={"language_level": 3, "global_options": {"error_on_unknown_names": False}}))
+        bs = core.build_many(specs, workdir=core.subdir("c01iso_%s_%d" % (tag, rnd)), jobs=jobs)
+        groups = []
+        for g, bb in zip(halves, bs):
+            if bb.ok:
+                continue
+            if len(g) == 1:
+                msg = [ln for ln in (bb.errors or "").strip().splitlines() if ln.strip()]
+                out[g[0]["pid"]] = ("cython", ("Compiler crash: " + msg[-1][:250]) if msg else "compiler crash")
+            else:
+                groups.append(g)
+    return out
+
+
 def build_robust(mods, jobs):
     pending = list(range(len(mods)))
     builds = [None] * len(mods)
@@ -178,9 +212,11 @@ def build_robust(mods, jobs):
         nxt = []
         for i, b in zip(pending, bs):
             builds[i] = b
-            if not b.ok and b.stage in ("cython", "cc"):
+            if not b.ok and b.stage in ("cython", "cc", "cython-crash"):
                 bl = blame(mods[i], b)
                 bl = {p: v for p, v in bl.items() if p not in mods[i]["dropped"]}
+                if not bl and b.stage != "cc" and rnd < 4:
+                    bl = isolate(mods[i], b, jobs, "%d_%d" % (rnd, i))
                 if bl:
                     mods[i]["dropped"].update(bl)
                     nxt.append(i)
